@@ -3,6 +3,7 @@ package c13
 import (
 	"fmt"
 	"os"
+	"sort"
 	"strings"
 	"testing"
 
@@ -146,6 +147,15 @@ func resolve(n *gen.YN, m mode) *model.Value {
 
 // walkPath follows a path choosing entries under lookup mode lm; the final subtree is resolved under rm.
 func walkPath(root *gen.YN, path []string, lm, rm mode) (*model.Value, bool) {
+	n, ok := nodeAtPath(root, path, lm)
+	if !ok {
+		return nil, false
+	}
+	return resolve(n, rm), true
+}
+
+// nodeAtPath follows a path choosing entries under lookup mode lm.
+func nodeAtPath(root *gen.YN, path []string, lm mode) (*gen.YN, bool) {
 	n := deref(root)
 	for _, st := range path {
 		switch n.K {
@@ -171,7 +181,7 @@ func walkPath(root *gen.YN, path []string, lm, rm mode) (*model.Value, bool) {
 			return nil, false
 		}
 	}
-	return resolve(n, rm), true
+	return n, true
 }
 
 func allPaths(v *model.Value, p []string, out *[][]string) {
@@ -379,6 +389,50 @@ func check(c Case) hx.Verdict {
 	}
 	if v := judge("route 3 (JSON, then look up)", sub, o3b, explodeDev, explodeDev); v != nil {
 		return *v
+	}
+	// route 4: a wildcard read of a map gives the values the map has under the merge-key rules (as a multiset)
+	if want.K == model.Map && len(want.Keys) > 0 { // (a wildcard that matches nothing creates the key "*": C01's open finding)
+		wq := "[" + q + ` | .["*"]]`
+		g4, o4 := jsonOne(wq, c.Text)
+		if v := fail(o4, "route 4"); v != nil {
+			return *v
+		}
+		multiset := func(m *model.Value) string {
+			var xs []string
+			for _, x := range m.Vals {
+				xs = append(xs, hx.SortKeys(x).JSON())
+			}
+			sort.Strings(xs)
+			return strings.Join(xs, "\n")
+		}
+		seqset := func(sv *model.Value) string {
+			var xs []string
+			for _, x := range sv.Elem {
+				xs = append(xs, hx.SortKeys(x).JSON())
+			}
+			sort.Strings(xs)
+			return strings.Join(xs, "\n")
+		}
+		if g4 == nil || g4.K != model.Seq {
+			return hx.Bad("", "route 4 (wildcard) failed (%s) reading %s of\n%s", o4.Err, wq, c.Text)
+		}
+		if seqset(g4) != multiset(want) {
+			sig := ""
+			// the open finding: the entries a traversal meets (merge list back to front ...), each printed as explode resolves it
+			if dn, dok := nodeAtPath(root, c.Path, traverseDev); dok && dn.K == gen.YMap {
+				_, dvals := entries(dn, traverseDev)
+				dm := model.NewMap()
+				for i, x := range dvals {
+					dm.Keys = append(dm.Keys, fmt.Sprint(i))
+					dm.Vals = append(dm.Vals, resolve(x, explodeDev))
+				}
+				if seqset(g4) == multiset(dm) {
+					sig = "deviant:merge-later-write-wins"
+				}
+			}
+			return hx.Bad(sig, "route 4 (wildcard): %s reads %s, the merge-key rules give the values of %s\n%s", wq, g4.JSON(), want.JSON(), c.Text)
+		}
+		labels = append(labels, "wildcard_read")
 	}
 	// explode leaves no alias, merge key or anchor behind
 	unwrap := false
